@@ -187,9 +187,6 @@ def _flag_status(fn: ast.AST, cfg: CFG, name: str, want: bool, flush_nodes: list
         if v is None:
             return False, "flag-not-constant", f"flag `{name}` is assigned a non-constant value (`{ast.unparse(s)[:70]}`): it mirrors state written elsewhere"
         vals.append((s, v))
-    inits = [n for s, v in vals if v is (not want) for n in cfg.nodes_of(s)]
-    if not inits or cfg.must_pass([cfg.entry], [ynode], inits):
-        return False, "flag-uninitialised", f"flag `{name}` is not initialised to {not want} on every path to the passthrough"
     sets = [(s, n) for s, v in vals if v is want for n in cfg.nodes_of(s)]
     if not sets:
         return False, "flag-never-set", f"flag `{name}` never becomes {want}: items after the flush would be buffered forever"
@@ -198,6 +195,9 @@ def _flag_status(fn: ast.AST, cfg: CFG, name: str, want: bool, flush_nodes: list
         tied = not cfg.must_pass([n], loop_heads + [cfg.exit], flush_nodes, labels_excluded=NOEXC, include_starts=False)
         if not (dominated or tied):
             return False, "flag-set-outside-flush", f"`{name} = {want}` at line {n.line} is reachable without passing the flush of the buffer"
+    inits = [n for s, v in vals if v is (not want) for n in cfg.nodes_of(s)]
+    if not inits or cfg.must_pass([cfg.entry], [ynode], inits):
+        return False, "flag-uninitialised", f"flag `{name}` is not initialised to {not want} on every path to the passthrough"
     return True, "", ""
 
 
@@ -231,7 +231,7 @@ def _r1_r3(chk, m, fn) -> None:
     if not flush_nodes:
         raise AnchorError("C29: sort of the burst buffer not found on the CFG")
     flush_loops = [s for s in walk_shallow(fn) if isinstance(s, (ast.For, ast.AsyncFor)) and s not in merged_loops
-                   and any(isinstance(x, ast.Name) and x.id == buf for x in ast.walk(expand(s.iter, s)))
+                   and any(isinstance(x, ast.Name) and x.id == buf for e in (s.iter, expand(s.iter, s, depth=1)) for x in ast.walk(e))
                    and any(isinstance(x, ast.Yield) for b in s.body for x in ast.walk(b))]
     chk.floor("C29.R3", "flush loops (iterate the buffer and yield)", len(flush_loops), 1)
 
@@ -249,11 +249,17 @@ def _r1_r3(chk, m, fn) -> None:
         raw = facts_at(cfg, n, expand_locals=False)
         flag_results = []
         foreign = []
+        mixed = []
         for text, pol in sorted(raw):
             e = ast.parse(text, mode="eval").body
             names = {x.id for x in ast.walk(e) if isinstance(x, ast.Name)}
+            if isinstance(e, ast.Constant):
+                continue
             if isinstance(e, ast.Name):
                 flag_results.append((text, pol) + _flag_status(fn, cfg, text, pol, flush_nodes, n, loop_heads))
+                continue
+            if isinstance(e, ast.BoolOp) and any(isinstance(v, ast.Name) and _name_assignments(fn, v.id) for v in ast.walk(e)):
+                mixed.append(("" if pol else "not ") + text)
                 continue
             if isinstance(e, ast.Compare) and len(e.ops) == 1 and isinstance(e.ops[0], (ast.Is, ast.Eq)) and isinstance(e.left, ast.Name) \
                     and isinstance(e.comparators[0], ast.Constant) and isinstance(e.comparators[0].value, bool):
@@ -271,6 +277,9 @@ def _r1_r3(chk, m, fn) -> None:
             continue
         if flag_results:
             mode, reason = flag_results[0][3], flag_results[0][4]
+        elif mixed:
+            mode = "flag-or-foreign-state"
+            reason = f"the guard `{mixed[0][:100]}` lets the passthrough happen on foreign state alone (a disjunction with the local flag)"
         elif foreign:
             mode = "guard-reads-foreign-state"
             reason = (f"the only guard is `{'; '.join(foreign)[:120]}`: state that another task sets (not a fact established by the flush branch), "
@@ -340,10 +349,19 @@ def _r1_r3(chk, m, fn) -> None:
                instance="buffer-reset", reason="the buffer can be emptied before its elements were yielded (burst lost)")
     # every merged item is buffered, yielded or the sentinel
     consume = append_nodes + [n for n, _y in passthrough] + flush_nodes
+    sentinel_edges: list[tuple[Node, str]] = []
+    for t in [n for n in cfg.nodes if n.kind == "test"]:
+        for lab in ("T", "F"):
+            for text, pol in atoms(t.ast.test, lab == "T"):
+                e = ast.parse(text, mode="eval").body
+                if pol and isinstance(e, ast.Compare) and len(e.ops) == 1 and isinstance(e.ops[0], (ast.Eq, ast.Is)):
+                    sides = [e.left, e.comparators[0]]
+                    if any(isinstance(x, ast.Name) and x.id in item_names for x in sides) and any(isinstance(x, ast.Constant) or (isinstance(x, ast.Name) and x.id.isupper()) for x in sides):
+                        sentinel_edges.append((t, lab))
     for s in merged_loops:
         for h in cfg.nodes_of(s):
             starts = [t for lab, t in cfg.succ[h] if lab == "loop"]
-            dropped = cfg.must_pass(starts, [h], consume, labels_excluded=NOEXC)
+            dropped = [h] if h in cfg.reach(starts, blocked=consume, blocked_edges=sentinel_edges, labels_excluded=NOEXC) else []
             p = cfg.path(starts[0], h, blocked=consume, labels_excluded=NOEXC) if dropped and starts else []
             chk.ob("C29.R3", "every item of the merged stream is buffered, yielded, or the flush sentinel", not dropped, m=m, node=s, fn=fn,
                    instance="item-consumed", reason="an iteration of the stream loop can complete without buffering or yielding its item", path=_lines(p))
@@ -432,6 +450,8 @@ def _r2(chk, m, fn) -> None:
                 chk.observe(f"C29.R2: values already collected in `{lst}` are discarded when a source ends in the same round and the caller passed "
                             f"{sorted(optin)}=True (flag(s) {sorted(set(optin_flags))}); outside the statement, which is about the default merge")
         # fresh per round
+        fresh_init = [n for n in cfg.nodes if n.kind == "stmt" and isinstance(n.ast, (ast.Assign, ast.AnnAssign)) and lst in assigned_names(n.ast)]
+        fresh_init += [n for n in cfg.nodes for c in _calls_in(n) if isinstance(c.func, ast.Attribute) and c.func.attr == "clear" and dotted(c.func.value) == lst]
         for s in yloops:
             for h in cfg.nodes_of(s):
                 starts = [t for lab, t in cfg.succ[h] if lab == "done"]
@@ -442,7 +462,7 @@ def _r2(chk, m, fn) -> None:
     # stored exception is re-raised
     handlers = []
     for s in walk_shallow(fn):
-        if isinstance(s, ast.Try) and any(rn.ast is not None and _inside(rn.ast, s) and any(rn.ast is b or _inside(rn.ast, b) for b in s.body) for rn, _v in results):
+        if isinstance(s, ast.Try) and any(rn.ast is b or _inside(rn.ast, b) for rn, _v in results for b in s.body):
             for h in s.handlers:
                 names = [ast.unparse(e).split(".")[-1] for e in (h.type.elts if isinstance(h.type, ast.Tuple) else [h.type])] if h.type is not None else ["BaseException"]
                 if set(names) <= {"StopAsyncIteration", "StopIteration"}:
